@@ -458,7 +458,10 @@ def render(am, rng, allow_any=True, allow_split=True, force=None):
     bound = sorted(n for n in range(1, am["ncb"] + 1) if n not in conv and rng.random() < p_bound)
     if bound:
         tags.add("bound_methods")
-    return dict(classes=classes, tags=tags, bound=bound)
+    sloppy = rng.random() < force.get("p_sloppy", 0.3)
+    if sloppy:
+        tags.add("sloppy_event_strings")
+    return dict(classes=classes, tags=tags, bound=bound, sloppy=sloppy)
 
 
 def _state_stmt(kind, run, i, rng):
@@ -649,6 +652,7 @@ def python_source(am, prog, clsname="M"):
     sexpr = {}      # state k -> expression usable in the current class body
     nclasses = len(prog["classes"])
     bound = frozenset(prog.get("bound", ()))
+    sloppy = bool(prog.get("sloppy"))
     for ci, cl in enumerate(prog["classes"]):
         last = ci == nclasses - 1
         cname = clsname if last else f"Base{ci}"
@@ -669,7 +673,15 @@ def python_source(am, prog, clsname="M"):
                 rs = []
                 for it in items:
                     if it[0] == "s":
-                        rs.append(repr(" ".join(evname(e) for e in it[1])))
+                        # a space-separated string; `sloppy`: written with runs of blanks / blanks at the ends
+                        names_ = [evname(e) for e in it[1]]
+                        k_ = sum(map(ord, "".join(names_))) + len(body)
+                        if sloppy and k_ % 3 == 0:
+                            txt_ = ("  " if k_ % 2 else " ").join(names_)
+                            txt_ = (" " if k_ % 5 == 0 else "") + txt_ + (" " if k_ % 7 == 0 else "")
+                        else:
+                            txt_ = " ".join(names_)
+                        rs.append(repr(txt_))
                     elif it[0] == "u":
                         rs.append(f"Event(name={('N u' + str(it[1]))!r})")
                     elif it[0] == "o":
@@ -815,4 +827,5 @@ def poison(prog, am, rng, kind):
     st = ("bare", ("to", a, [b], kw) if rng.random() < 0.5 else ("from", b, [a], kw))
     classes = [list(c) for c in prog["classes"]]
     classes[-1].append(st)
-    return dict(classes=classes, tags=set(prog["tags"]) | {"invalid_" + kind}, bound=prog.get("bound", []))
+    return dict(classes=classes, tags=set(prog["tags"]) | {"invalid_" + kind}, bound=prog.get("bound", []),
+                sloppy=prog.get("sloppy", False))
